@@ -5,6 +5,7 @@ import (
 
 	"github.com/golang/snappy"
 	"github.com/kelindar/binary"
+	"github.com/kelindar/binary/nocopy"
 
 	"github.com/emitter-io/emitter/internal/event/crdt"
 	"github.com/emitter-io/emitter/internal/message"
@@ -28,7 +29,12 @@ func (st *State) VerifRawSub(key string, add, del int64) {
 	st.subsets[typeSub].(*crdt.Volatile).VerifRaw(key, add, del)
 }
 
-func c09esSnappyDecode(dst, src []byte) ([]byte, error) { return append([]byte(nil), src...), nil }
+func c09esSnappyDecode(dst, src []byte) ([]byte, error) {
+	if len(src) <= len(dst) { // like the real one: into dst when it is long enough
+		return dst[:copy(dst, src)], nil
+	}
+	return append([]byte(nil), src...), nil
+}
 
 // binary.Unmarshal into a *map[uint8]crdt.Volatile is kelindar/binary's reflectMapCodec
 // (codecs.go v1.0.19: entry count, then per entry a varuint key and the value through its
@@ -132,4 +138,40 @@ func VerifC09ConnValue(v *verifrt.T) {
 	panicked := v.Try(func() { decodeConnection(key, val) })
 	v.Reach("connection-decoded")
 	v.Assert(!panicked, "C09.connection-value.no-panic")
+}
+
+// binary.Unmarshal into a *Subscription: the struct codec over User (nocopy string codec) and
+// Channel (nocopy byte-slice codec) - both read a declared length and take a zero-copy slice
+// of the input (nocopy/codecs.go v1.0.19) -, transcribed over the real Decoder; the other
+// fields are not encoded.
+func c09esUnmarshalSub(b []byte, out interface{}) error {
+	d := binary.NewDecoder(bytes.NewBuffer(b))
+	e := out.(*Subscription)
+	l, err := d.ReadUvarint()
+	if err != nil {
+		return err
+	}
+	u, err := d.Slice(int(l))
+	if err != nil {
+		return err
+	}
+	e.User = nocopy.String(binary.ToString(&u))
+	if l, err = d.ReadUvarint(); err == nil && l > 0 {
+		var c []byte
+		if c, err = d.Slice(int(l)); err == nil {
+			e.Channel = c
+		}
+	}
+	return err
+}
+
+// VerifC09SubValue: the value bytes of a replicated subscription entry (user name and
+// channel) come from the cluster port and are decoded for every entry while a payload is
+// merged (State.Subscriptions, on the mesh goroutine): arbitrary bytes must not panic.
+func VerifC09SubValue(v *verifrt.T) {
+	val := v.Bytes(v.Choice(v.Bound("subvalue")+1, "n"), "u")
+	key := string(make([]byte, 24))
+	panicked := v.Try(func() { decodeSubscription(key, val) })
+	v.Reach("subscription-value-decoded")
+	v.Assert(!panicked, "C09.subscription-value.no-panic")
 }
